@@ -20,7 +20,9 @@ PROP = {
              "library, 0x03 Merkle proof, 0x04 Merkle update, 0x00, 0xff, payload length valid for the type / type "
              "byte only / one byte short / one byte long / not byte aligned / random, on all inner cells, every "
              "second one, a random half, or all cells (the parser does not validate exotic cells, so it returns "
-             "them with their references). Compared with the model: outcome class and, per root, hash, depth, "
+             "them with their references); family 'deep': chains of 1023, 1027 and 1100 cells (1024..1026 are in the "
+             "adversarial list), a chain of 1023/1024/1030 cells as second reference of a shallow root, a 1040-cell "
+             "chain referenced twice three levels below the root (the hasher's depth limit is 1024). Compared with the model: outcome class and, per root, hash, depth, "
              "level, bit size, ref count, exotic flag, type (a makeslice panic, a fatal out-of-memory or a hang of "
              "the child is a class mismatch). Oracles on the implementation, all evaluated in the child (an input "
              "that crashed, hung or panicked there is reported and never executed again): (a) no crash/timeout/"
@@ -33,13 +35,18 @@ PROP = {
              "print-unbounded), ToString prints at most 2*65536+8*cells+2 lines (cells = distinct cells under the "
              "root; the visit budget BOCSizeLimit=65536 allows 65537+3*depth, theorem C07_print_bounded: <= 262145 "
              "for every DAG; measured maximum 65697) and at most cells+264 bytes per line, ToBoc output is at most "
-             "2*len+64 bytes and re-parses; (e) for the sharing families, before anything else touches the input: Hash + "
+             "2*len+64 bytes and re-parses; (e) for the sharing and deep families before anything else touches the input, for the other streams "
+             "after a successful parse: Hash + "
              "ToBoc + re-parse of every parsed root (exec c07.hash in the child, 10 s) terminate - keys hash-timeout, "
              "hash-unbounded - and their TotalAlloc delta is at most 16384*cells+131072 bytes, cells = distinct cells "
              "under the root (key hash-out-of-proportion: the hash cache of newImmutableCell keeps the work linear in "
              "the cells although the DAG has up to 4^59 paths; measured on the unchanged tree: at most 2.7 kB per "
              "cell, 14.2 kB for roots of <= 8 cells, 1.5 ms per call; a Hash() error for a malformed exotic payload is "
-             "accepted). The number of "
+             "accepted); in the same exec, for every successfully parsed root of every stream, ONE boc.Hasher is used for "
+             "Hash, HashString, Hash again, ToBocCustomWithHasher, Hash, and Hash of every direct child: each call "
+             "must return exactly the value / error a fresh cache returns (Cell.Hash, Cell.ToBoc) and must not panic, "
+             "in particular after a call that answered ErrDepthIsTooBig (keys hasher-reuse-panic, "
+             "hasher-reuse-differs). The number of "
              "lines ToString prints for the sharing family is compared with the Coq model of the budgeted "
              "traversal (kind c07.lines; the comparison is enabled). A class is (stream, position/size bucket, outcome); oracle-only evaluations are counted "
              "as c07.alloc|..., c07.print|... and c07.hash|... classes."),
